@@ -39,7 +39,8 @@ RULE = ("universe: 2 regions, local ids 1..5, 5 objects; alphabet of 38 concrete
         ". Round-5 additions: avatars with name/value pairs of every shape, alone and in one message with an attachment; in the viewer-cache configuration two viewers' real on-disk caches under $HOME (one per struct alignment) hold current and older entries for objects 6..8 in both directory orders: cached updates hit them (unknown object, tracked object in another state, object tracked under another local id), teardown reloads the caches"
         ". Rounds 6-7: object kinds other than prim and avatar (tree, grass, particle system) as children; one of several callers waiting for the same object gives up"
         ". Round 8: the viewers' cache files written again while the proxy runs (action WA) - the region's next life reads the new files (a state only they know: XA8new), the current one keeps what it loaded"
-        ". Round 9: teardown followed by a straggling update of that region before it is brought up again (also with nothing tracked anywhere)")
+        ". Round 9: teardown followed by a straggling update of that region before it is brought up again (also with nothing tracked anywhere)"
+        ". Round 10: the viewers' cache files start with entries of the largest and smallest size the format allows (10000 bytes, 9999, 1) for objects nobody asks about")
 ASSUMPTIONS = [
     "all objects are primitives (avatars as children of killed objects are a deliberate special case in the code)",
     "updates only name regions the session tracks; a torn-down region is tracked again before further updates",
